@@ -196,4 +196,28 @@ theorem startPos_wf : ValidB startPos.b ∧ EpPawn startPos := by
   have : startPos.ep = none := rfl
   rw [this] at he; cases he
 
+/-! ## castling rights (the test `cMask & ~pos.getCastleMask()` of `computeBlocked`) -/
+
+theorem and_bit_mono (x k1 k2 bit : UInt8) (h : x &&& bit = 0) : (x &&& k1 &&& k2) &&& bit = 0 := by
+  have : (x &&& k1 &&& k2) &&& bit = (x &&& bit) &&& (k1 &&& k2) := by
+    rw [UInt8.and_assoc, UInt8.and_assoc, UInt8.and_assoc]
+    congr 1
+    rw [← UInt8.and_assoc, UInt8.and_comm]
+  rw [this, h, UInt8.zero_and]
+
+/-- castling rights are never regained -/
+theorem castle_monotone (p g : Pos) (ms : List Mv) (h : Playable p ms g) (bit : UInt8) (hb : p.castle &&& bit = 0) :
+    g.castle &&& bit = 0 := by
+  induction h with
+  | nil p => exact hb
+  | cons p m ms q _ _ ih =>
+    apply ih
+    have : (fixupEP (apply p m)).castle = p.castle &&& castleKeep m.f &&& castleKeep m.t := by
+      unfold fixupEP
+      split
+      · rfl
+      · split <;> rfl
+    rw [this]
+    exact and_bit_mono _ _ _ _ hb
+
 end PG
